@@ -43,6 +43,11 @@ func docText(r *core.RNG, name string, first bool) string {
 				return name // the name alone
 			case k < 13:
 				parts = append(parts, strings.ToLower(name))
+			case k < 15: // the name twice: removing the leading name must happen exactly once ("Status Status of the run")
+				parts = append(parts, name, name)
+				if r.Chance(30) {
+					return name + " " + name
+				}
 			}
 		}
 		n := 1 + r.Intn(4)
